@@ -23,6 +23,9 @@ def behaviours(ctx, cfg, num, depth, name):
         if key in seen:
             continue
         seen.add(key)
+        # TLC prints a behaviour once per successor of its last state, before action constraints are
+        # applied to that last step: drop it (all remaining steps obey the scheduling constraints)
+        b["steps"] = b["steps"][:-1]
         out.append(b)
     if not out:
         raise InfraError("no behaviours emitted by " + name)
@@ -33,16 +36,22 @@ def run(ctx):
     drv = ctx.build("c16")
     T = 3600
     if os.environ.get("VERIF_DEV_SKIP_MC") != "1":      # development knob (mutation runs): MC does not depend on the Go code
-        ctx.model_check("state/MCPathDB", "state/MCPathDB" if ctx.thorough else "state/MCPathDBQuick",
-                        timeout=2 * T, workers=4, name="MCPathDB", coverage=False)
+        if ctx.thorough:
+            ctx.model_check("state/MCPathDB", "state/MCPathDB", timeout=3 * T, workers=6, name="MCPathDB")
+            ctx.model_check("state/MCPathDB", "state/MCPathDBThorough3", timeout=3 * T, workers=6, name="MCPathDB-3keys")
+        else:
+            ctx.model_check("state/MCPathDB", "state/MCPathDBQuickSync", timeout=T, workers=4, name="MCPathDB-noreader")
+            ctx.model_check("state/MCPathDB", "state/MCPathDBQuick", timeout=2 * T, workers=4, name="MCPathDB-reader")
     # R: behaviours with reader and flush schedules
-    bs = behaviours(ctx, "state/MCPathDBSim", ctx.pick(60, 600), 16, "MBT-PathDB")
+    bs = behaviours(ctx, "state/MCPathDBSim", ctx.pick(40, 500), 16, "MBT-PathDB")
+    bs += behaviours(ctx, "state/MCPathDBSimRd", ctx.pick(40, 500), 14, "MBT-PathDB-readers")
     bp = os.path.join(ctx.scratch, "behaviours.json")
     write_json(bp, bs)
-    s, _ = ctx.drive(drv, ["-mode", "replay", "-in", bp], name="c16-replay", timeout=T)
+    strict = {"C16_STRICT": "1"} if os.environ.get("C16_STRICT") == "1" else None
+    s, _ = ctx.drive(drv, ["-mode", "replay", "-in", bp], name="c16-replay", timeout=T, env=strict)
     pend = dict((s.get("extra") or {}).get("pending_findings") or {})
     # deterministic reproduction of finding F1 through the public API (kept as pending finding)
-    s2, _ = ctx.drive(drv, ["-mode", "finding"], name="c16-finding-F1", timeout=T)
+    s2, _ = ctx.drive(drv, ["-mode", "finding"], name="c16-finding-F1", timeout=T, env=strict)
     for k, v in ((s2.get("extra") or {}).get("pending_findings") or {}).items():
         pend[k] = pend.get(k, 0) + v
     for k, v in sorted(pend.items()):
